@@ -78,7 +78,7 @@ impl Prop for C02 {
     }
     fn components(&self) -> Value {
         json!({"real": ["sentinel-core: ConfigEntity::check, config::reset_global_config, ResourceNode, BucketLeapArray/LeapArray, SlidingWindowMetric, MetricBucket"],
-               "stub": ["clock (virtual, hook H1)", "getrandom (seeded)", "logger (none)"]})
+               "stub": ["clock (virtual, hook H1)", "getrandom (seeded)", "logger (a sink that formats every record of the library and discards it)"]})
     }
 
     fn generate(&self, rng: &mut Rng, slot_ns: u64, _avoid: bool) -> Value {
